@@ -17,14 +17,20 @@ func main() {
 	switch *prop {
 	case "C01":
 		rep = suiteParse("C01", *tier, *seed, *model, map[string]bool{"accept": true})
+	case "C05":
+		rep = suiteGet(*tier, *seed, *model)
+	case "C12":
+		rep = suiteScript(*tier, *seed, *model)
 	case "C03":
-		rep = suiteChunk(*tier, *seed, *model)
+		rep = suiteChunk("C03", "", *tier, *seed, *model)
 	case "C02":
 		rep = suiteParse("C02", *tier, *seed, *model, map[string]bool{"value": true})
 	case "C06":
 		rep = suiteParse("C06", *tier, *seed, *model, map[string]bool{"fault": true})
+		rep.Merge(suiteChunk("C06", "fault", *tier, *seed, *model))
 	case "C09":
 		rep = suiteParse("C09", *tier, *seed, *model, map[string]bool{"position": true})
+		rep.Merge(suiteChunk("C09", "position", *tier, *seed, *model))
 	default:
 		fmt.Fprintf(os.Stderr, "unknown property %q\n", *prop)
 		os.Exit(2)
